@@ -40,14 +40,39 @@ class Check:
         return r
 
     def exec_and_validate(self, module, cmds, keyfn, accel=False, cost=None, shards=None,
-                          result_keys=None, timeout=3000, tag="t", env=None):
+                          result_keys=None, timeout=3000, tag="t", env=None, pure_budget=0,
+                          families=("bits",)):
         """Runs the commands on the real code, validates the events with TLC, confirms every
         distinct failure key by re-executing its scenario, and records it."""
         if not cmds:
             return []
         events = core.run_driver(self.drv(), cmds, self.rd, tag=tag, env=env)
+        if accel:
+            from . import accel as _accel
+            _accel.selftest(self, families)
         bad, stats = core.validate(self.rd, module, events, accel=accel, cost=cost, shards=shards,
                                    timeout=timeout)
+        if accel and pure_budget > 0:
+            # a seeded sample of the scenarios is validated again WITHOUT any Java override
+            groups = core.scenario_groups(events)
+            self.rng.shuffle(groups)
+            cf = cost or (lambda g: sum(len(json.dumps(e)) for e in g))
+            pick, used = [], 0
+            for g in groups:
+                c = cf(g)
+                if used + c <= pure_budget:
+                    pick.append(g)
+                    used += c
+            pev = [e for g in pick for e in g]
+            pbad, pstats = core.validate(self.rd, module, pev, accel=False, cost=cost, shards=shards,
+                                         timeout=timeout)
+            accel_bad_sc = set(b["sc"] for b in bad)
+            pure_bad_sc = set(b["sc"] for b in pbad)
+            picked_sc = set(g[0]["sc"] for g in pick)
+            if pure_bad_sc != (accel_bad_sc & picked_sc):
+                raise Infra("pure and accelerated validation disagree on scenarios %s" % sorted(
+                    pure_bad_sc ^ (accel_bad_sc & picked_sc))[:5])
+            self.extra["validated_without_accelerator"] = self.extra.get("validated_without_accelerator", 0) + pstats["scenarios"]
         self.events += stats["events"]
         self.scenarios += stats["scenarios"]
         self.states += stats["states"]
